@@ -15,6 +15,7 @@ import SF.Proofs.CborTree
 import SF.Props.C05
 import SF.Proofs.UbjParseTop
 import SF.Proofs.JsonSrcTop
+import SF.Proofs.FoldWfTop
 namespace SF.Props.C09
 open SF SF.Cbor SF.Cbor.Cst
 
@@ -184,3 +185,52 @@ theorem json_parser_events_ok (t : Text) (h : t.good) :
 example : SF.Props.JsonSrc.exT.good := SF.Props.JsonSrc.exT_good
 
 end SF.PropsJsonP.C09
+
+
+/-! ## gotype Fold as PRODUCER (mirror SF/Gotype/Fold.lean; proofs SF/Proofs/FoldWf{Shape,Type,NoOk,Run,Top}.lean) -/
+
+namespace SF.PropsFold.C09
+open SF SF.Gotype SF.Gotype.Fold SF.Gotype.Rules SF.FoldProofs
+
+/-- C09 for Fold: for every good type `T` (`goodT`, the universe of C12: every scalar kind,
+interface{}, slices, arrays incl. the typed-array fast paths, pointers, string-keyed maps,
+structs with arbitrary tags incl. omitempty and inline, named types without methods) of depth
+≤ 499, every value `v` of type `T`, every option record with a healthy visitor: if the fold
+returns ok, the stream it delivered is ONE contract-conforming document — balanced, keys only
+in objects, every announced length -1 or EXACT (a struct announces its field count only when no
+kept field is omitempty / inline), announced element types respected.  No reference to the
+rules, no bound on the value. -/
+theorem fold_ok_wf (o : FoldOpts) (T : GoType) (v : GoVal)
+    (hp : goodT [] T = true) (hdt : tdepth T ≤ dynBound) (hw : wt T v = true)
+    (hfail : o.failAt = none) (hok : (impl o T v).res = .ok) :
+    WF1 (expandAll (impl o T v).evs) = true :=
+  SF.FoldProofs.Wf.fold_ok_wf o T v hp hdt hw hfail hok
+
+/-- … with ANY fault index: what the fold delivered is a PREFIX of the conforming stream it
+delivers to the healthy visitor -/
+theorem fold_fault_wf_prefix (o : FoldOpts) (T : GoType) (v : GoVal) (k : Nat)
+    (hp : goodT [] T = true) (hdt : tdepth T ≤ dynBound) (hw : wt T v = true)
+    (hk : o.failAt = some k) (hok : (impl { o with failAt := none } T v).res = .ok) :
+    ∃ full, WF1 (expandAll full) = true ∧ (impl o T v).evs <+: full ∧
+      expandAll (impl o T v).evs <+: expandAll full ∧
+      (full.length ≤ k → impl o T v = { evs := full, res := .ok }) ∧
+      (k < full.length → (impl o T v).res = .err .injected ∧ (impl o T v).evs = full.take (k + 1)) :=
+  SF.FoldProofs.Wf.fold_fault_wf_prefix o T v k hp hdt hw hk hok
+
+/-- `goodT` cannot be dropped: a custom folder is user code — the menagerie's `FOpen` (a Fold
+method that opens an object and never closes it) makes Fold return ok on an ill-formed stream -/
+example :
+    let T : GoType := .named "FOpen" { folder := .value } (.struct [.mk "A" (.int .int) "" false])
+    (impl {} T (.struct [.int 1])).res = .ok ∧ WF1 (expandAll (impl {} T (.struct [.int 1])).evs) = false := by
+  decide +kernel
+
+/-- non-vacuity: `[]interface{}{int8(1), []string{"x"}, map[string]bool{"k": true}, nil}` (typed
+array and typed map events inside the interface fast path) -/
+example :
+    let T : GoType := .slice .iface
+    let v : GoVal := .slice [.iface (.int .i8) (.int 1), .iface (.slice .string) (.slice [.str [120]]),
+                             .iface (.map .string .bool) (.map [(.str [107], .bool true)]), .nilIface]
+    goodT [] T = true ∧ wt T v = true ∧ (impl {} T v).res = .ok ∧ WF1 (expandAll (impl {} T v).evs) = true := by
+  decide +kernel
+
+end SF.PropsFold.C09
